@@ -650,6 +650,11 @@ def seq_laws(ctx, rep):
     G = rep.gens
     mul = lambda a, b: a * b
     sets = [G[1:3], G[2:5], G[-3:]]
+    # long operands (31, 32, 33 and 64 values: trajectories; the generators repeated cyclically with two different phases)
+    Gf = [g for g in G if np.all(np.abs(np.asarray(g[1], dtype=float)) < 1e4)] or G
+    for N_ in (31, 32, 33, 64):
+        sets.append([Gf[(j * 2 + 1) % len(Gf)] for j in range(N_)])
+        sets.append([Gf[(j * 3 + 2) % len(Gf)] for j in range(N_)])
     for si, s in enumerate(sets):
         for ti, t in enumerate(sets):
             if len(s) != len(t):
